@@ -117,9 +117,66 @@ def allele_names(n):
     return ["al%d" % i for i in range(n)]
 
 
-def run_mm(tree, geno, alleles, anc):
-    """Call the public API; canonical observation."""
+def name_scheme(rng, n):
+    """Distinct allele strings; digit strings in non-natural order are the interesting ones
+    (a string must be looked up with alleles.index, never parsed as an index)."""
+    k = rng.randrange(8)
+    if k == 0:
+        return None                                   # al0, al1, ...
+    if k == 1:
+        return [str(i) for i in range(n)]             # natural order
+    if k == 2:
+        return [str(n - 1 - i) for i in range(n)]     # reversed
+    if k == 3:
+        return [str((i + 1) % n) for i in range(n)]   # rotated
+    if k == 4:
+        p = list(range(n))
+        rng.shuffle(p)
+        return [str(x) for x in p]
+    if k == 5:
+        p = list(range(n))
+        rng.shuffle(p)
+        return [str(x + 1) for x in p]                # digits, none of them a valid own index pattern
+    if k == 6:
+        base = ["A", "C", "G", "T", "", "AC", "-", "N"]
+        return [base[i] if i < len(base) else "x%d" % i for i in range(n)]
+    out = []
+    for i in range(n):
+        out.append(str((i * 7 + 3) % (n + 5)) if i % 2 == 0 else "s%d" % i)
+    return out if len(set(out)) == n else None
+
+
+def case_names(case, n):
+    names = case.get("names")
+    return list(names) if names is not None else allele_names(n)
+
+
+def tokens_of(names):
+    first, out = {}, []
+    for i, s in enumerate(names):
+        first.setdefault(s, i)
+        out.append(first[s])
+    return out
+
+
+def extra_flags(rng, flags, p=0.3):
+    """Sample / non-sample nodes carrying other flag bits as well (only bit 0 means sample)."""
+    if rng.random() > p:
+        return flags
+    return [f | rng.choice([0, 0, 2, 4, 1 << 16, 1 << 19, (1 << 31), 6]) for f in flags]
+
+
+def np_genotypes(geno, dtype):
+    if dtype is None:
+        return geno
+    import numpy as np
+    return np.array(geno, dtype=dtype)
+
+
+def run_mm(tree, geno, alleles, anc, dtype=None):
+    """Call the public API; canonical observation (allele strings as first-occurrence indices)."""
     try:
+        geno = np_genotypes(geno, dtype)
         a, muts = tree.map_mutations(geno, alleles, anc) if anc is not None else tree.map_mutations(geno, alleles)
     except Exception as e:  # noqa: BLE001 - the class is the observation
         return {"exc": type(e).__name__}
@@ -299,6 +356,12 @@ def check_result(shape, geno, anc_req, res, opt, nalleles):
     return out
 
 
+def flags0(case):
+    if "desc" in case:
+        return [nd[0] for nd in case["desc"]["nodes"]]
+    return case["flags"]
+
+
 # ----------------------------------------------------------------------------
 # Coq terms
 # ----------------------------------------------------------------------------
@@ -337,7 +400,7 @@ def table_roundtrip(tree, case, res):
     tc.sites.clear()
     tc.mutations.clear()
     iv = tree.interval
-    alleles = allele_names(case["nalleles"])
+    alleles = case_names(case, case["nalleles"])
     tc.sites.add_row(iv.left, alleles[res["anc"]])
     for node, d, p in res["muts"]:
         tc.mutations.add_row(0, node, alleles[d], parent=p)
@@ -361,10 +424,14 @@ def one_case_oracle(case, obs):
     if len(geno) != len(shape.samples):
         raise AssertionError("generator bug: genotype length")
     if "exc" in res:
+        # a rejection is acceptable only where the property cannot be met: some sample lies
+        # under no root of the tree (root_threshold > 1; proposed repair of F14)
+        if res["exc"] == "LibraryError" and any(not shape.reach[u] for u in shape.samples):
+            return []
         return [("unexpected-exception", res["exc"])]
     nal = case["nalleles"]
     opt = sankoff(shape, geno, nal + 1)
-    anc_req = case["anc"] if case["anc"] is None else case["anc"][1]
+    anc_req = anc_index(case["anc"], case_names(case, nal))
     out += check_result(shape, geno, anc_req, res, opt, nal)
     if shape.n <= 6 and nal <= 2:
         bf = brute_force(shape, geno, nal + 1)
@@ -385,10 +452,38 @@ def one_case_oracle(case, obs):
 
 
 def anc_arg(anc, alleles):
-    """anc = None | ["int", i] | ["str", i]"""
+    """anc = None | ["int", i] | ["npint", i] | ["str", i] | ["strmissing", _] | ["numstr", k]"""
     if anc is None:
         return None
-    return anc[1] if anc[0] == "int" else alleles[anc[1]]
+    if anc[0] == "int":
+        return anc[1]
+    if anc[0] == "npint":
+        import numpy as np
+        return np.int64(anc[1])
+    if anc[0] == "str":
+        return alleles[anc[1]]
+    if anc[0] == "numstr":
+        return str(anc[1])          # a digit string (the generator makes sure it is not an allele)
+    return "not-an-allele"
+
+
+def coq_anc(anc, names):
+    if anc is None:
+        return "ANone"
+    if anc[0] in ("int", "npint"):
+        return "(AInt %s)" % cz(anc[1])
+    if anc[0] == "str":
+        return "(AStr %s)" % cz(tokens_of(names)[anc[1]])
+    return "(AStr %s)" % cz(-5)     # a string that is not in the alleles list
+
+
+def anc_index(anc, names):
+    """the index the requested ancestral state denotes (property text), or None"""
+    if anc is None:
+        return None
+    if anc[0] == "str":
+        return tokens_of(names)[anc[1]]
+    return anc[1]
 
 
 class SingleBase(Family):
@@ -398,8 +493,8 @@ class SingleBase(Family):
 
     def observe(self, case):
         tree = build_tree(case)
-        alleles = allele_names(case["nalleles"])
-        res = run_mm(tree, case["geno"], alleles, anc_arg(case["anc"], alleles))
+        alleles = case_names(case, case["nalleles"])
+        res = run_mm(tree, case["geno"], alleles, anc_arg(case["anc"], alleles), case.get("dtype"))
         o = {"res": res}
         o.update(tree_arrays(tree))
         o["virtual_root"] = int(tree.virtual_root)
@@ -410,10 +505,10 @@ class SingleBase(Family):
         return one_case_oracle(case, obs)
 
     def coq_check(self, case, obs):
-        anc = case["anc"]
-        a = "ANone" if anc is None else "(%s %s)" % ("AInt" if anc[0] == "int" else "AStr", cz(anc[1]))
+        names = case_names(case, case["nalleles"])
         return "check_case %s %s %s %s %s" % (
-            coq_arrays(obs), clist(case["geno"]), a, cz(case["nalleles"]), coq_result(obs["res"]))
+            coq_arrays(obs), clist(case["geno"]), coq_anc(case["anc"], names), clist(tokens_of(names)),
+            coq_result(obs["res"]))
 
     def nontrivial(self, case, obs):
         return "muts" in obs["res"] and len(obs["res"]["muts"]) >= 1
@@ -426,6 +521,9 @@ class SingleBase(Family):
             "nodes": min(sh.n, 20) if sh.n < 20 else "20+",
             "n_mut": len(obs["res"].get("muts", [])) if "muts" in obs["res"] else obs["res"]["exc"],
             "anc": "free" if case["anc"] is None else case["anc"][0],
+            "names": "al" if case.get("names") is None else ("digits" if all(x.isdigit() for x in case["names"]) else "mixed"),
+            "extra_flag_bits": any(f & ~1 for f in flags0(case)),
+            "dtype": case.get("dtype") or "list",
             "has_missing": any(x == NULL for x in g),
             "internal_sample": bool(sh.internal_samples),
             "multiroot": len(sh.all_roots) > 1,
@@ -515,7 +613,11 @@ class Single(SingleBase):
                         gs = rng.sample(gs, 6)
                     for g in gs:
                         anc = rng.choice(list(anc_options(2)))
-                        yield {"parent": parent, "flags": flags, "geno": g, "anc": anc, "nalleles": 2}
+                        c = {"parent": parent, "flags": extra_flags(rng, flags), "geno": g, "anc": anc, "nalleles": 2}
+                        nm = name_scheme(rng, 2)
+                        if nm is not None:
+                            c["names"] = nm
+                        yield c
         # n = 5..7: random picks from the enumerated forests, 3 alleles, root_threshold / null tree variants
         for n, count in ((5, 400), (6, 500), (7, 300)):
             count = count if tier == "quick" else count * 6
@@ -531,8 +633,13 @@ class Single(SingleBase):
                 if all(x == NULL for x in g):
                     g[0] = 0
                 nal = K + rng.choice([0, 0, 1])
-                anc = rng.choice(list(anc_options(nal)) + [None] * nal)
-                c = {"parent": parent, "flags": flags, "geno": g, "anc": anc, "nalleles": nal}
+                anc = rng.choice(list(anc_options(nal, forms=("int", "str", "str", "npint"))) + [None] * nal)
+                c = {"parent": parent, "flags": extra_flags(rng, flags), "geno": g, "anc": anc, "nalleles": nal}
+                nm = name_scheme(rng, nal)
+                if nm is not None:
+                    c["names"] = nm
+                if rng.random() < 0.3:
+                    c["dtype"] = rng.choice(["int8", "int16", "int32", "int64"] + ([] if min(g) < 0 else ["uint8", "uint16", "uint64"]))
                 r = rng.random()
                 if r < 0.05:
                     c["null_tree"] = True
@@ -556,8 +663,110 @@ class RootThreshold(SingleBase):
             g = [rng.choice([NULL] + list(range(K)) * 2) for _ in range(sum(flags))]
             if all(x == NULL for x in g):
                 g[0] = 0
-            yield {"parent": parent, "flags": flags, "geno": g, "anc": rng.choice(list(anc_options(K)) + [None] * K),
-                   "nalleles": K, "root_threshold": rng.choice([2, 2, 3])}
+            c = {"parent": parent, "flags": extra_flags(rng, flags), "geno": g,
+                 "anc": rng.choice(list(anc_options(K)) + [None] * K),
+                 "nalleles": K, "root_threshold": rng.choice([2, 2, 3])}
+            nm = name_scheme(rng, K)
+            if nm is not None:
+                c["names"] = nm
+            yield c
+
+
+class Boundary(SingleBase):
+    """Boundary values: allele index 63 / sets with only high bits, a fixed ancestral state one
+    past the largest observed allele over multi-root forests with all-missing subtrees, deep
+    and wide trees (explicit stacks of the C code)."""
+    name = "boundary"
+    shard = 120
+
+    def generate(self, rng, tier):
+        def forest(n):
+            return [rng.choice([NULL] + list(range(u + 1, n))) for u in range(n)]
+        # (a) high alleles
+        for _ in range(120 if tier == "quick" else 1500):
+            n = rng.randrange(2, 9)
+            parent = forest(n)
+            flags = [1 if rng.random() < 0.75 else 0 for _ in range(n)]
+            if not any(flags):
+                flags[0] = 1
+            k = sum(flags)
+            pool = rng.choice([[62, 63], [63], [32, 33, 63], [31, 32], [0, 63], list(range(40, 64))])
+            g = [rng.choice([NULL] + pool * 3) for _ in range(k)]
+            if all(x == NULL for x in g):
+                g[0] = pool[-1]
+            nal = rng.choice([64, 64, 70])
+            anc = rng.choice([None, ["int", 63], ["str", 63], ["int", max(g)], ["str", min(max(g) + 1, 63)],
+                              ["int", rng.choice(pool)], ["npint", 63]])
+            c = {"parent": parent, "flags": extra_flags(rng, flags), "geno": g, "anc": anc, "nalleles": nal}
+            r = rng.random()
+            if r < 0.4:
+                c["names"] = [str(nal - 1 - i) for i in range(nal)]
+            elif r < 0.6:
+                c["names"] = [str(i) for i in range(nal)]
+            yield c
+        # (b) several roots, one subtree entirely missing, ancestral state fixed one past the largest allele
+        for _ in range(150 if tier == "quick" else 1500):
+            n = rng.randrange(3, 9)
+            parent = forest(n)
+            parent[n - 1] = NULL
+            parent[n - 2] = NULL
+            flags = [1 if rng.random() < 0.8 else 0 for _ in range(n)]
+            flags[n - 2] = 1
+            sh = Shape(parent, flags)
+            samples = sh.samples
+            K = rng.choice([1, 2, 3])
+            g = [rng.randrange(K) for _ in samples]
+            # blank the subtree of one root
+            root = rng.choice(sh.all_roots)
+            below = set()
+            stack = [root]
+            while stack:
+                u = stack.pop()
+                below.add(u)
+                stack += sh.children[u]
+            for j, u in enumerate(samples):
+                if u in below:
+                    g[j] = NULL
+            if all(x == NULL for x in g):
+                g[0] = K - 1
+            top = max(g) + 1
+            anc = rng.choice([["int", top], ["str", top], ["int", top], ["int", top + 1], None])
+            nal = (anc[1] if anc else top) + 1 + rng.choice([0, 0, 2])
+            c = {"parent": parent, "flags": extra_flags(rng, flags), "geno": g, "anc": anc, "nalleles": nal}
+            nm = name_scheme(rng, nal)
+            if nm is not None:
+                c["names"] = nm
+            yield c
+        # (c) deep chains / caterpillars / wide stars
+        sizes = [40, 120] if tier == "quick" else [40, 120, 400, 900]
+        for n in sizes:
+            for shape in ("chain", "caterpillar", "star", "broom"):
+                for rep in range(2 if tier == "quick" else 4):
+                    if shape == "chain":
+                        parent = [u + 1 for u in range(n - 1)] + [NULL]
+                        flags = [1] + [1 if rng.random() < 0.2 else 0 for _ in range(n - 1)]
+                    elif shape == "caterpillar":
+                        m = n // 2            # leaves 0..m-1, spine m..n-1
+                        parent = [min(m + u, n - 1) for u in range(m)] + [u + 1 for u in range(m, n - 1)] + [NULL]
+                        flags = [1] * m + [1 if rng.random() < 0.1 else 0 for _ in range(n - m)]
+                    elif shape == "star":
+                        parent = [n - 1] * (n - 1) + [NULL]
+                        flags = [1 if rng.random() < 0.9 else 0 for _ in range(n - 1)] + [0]
+                        flags[0] = 1
+                    else:
+                        h = n // 2            # a star on top of a chain
+                        parent = [h] * h + [u + 1 for u in range(h, n - 1)] + [NULL]
+                        flags = [1] * h + [0] * (n - h)
+                    k = sum(flags)
+                    K = rng.choice([2, 3, 5])
+                    g = [rng.choice([NULL] + list(range(K)) * 3) for _ in range(k)]
+                    if all(x == NULL for x in g):
+                        g[0] = 0
+                    yield {"parent": parent, "flags": flags, "geno": g,
+                           "anc": rng.choice([None, ["int", rng.randrange(K)], ["str", K]]), "nalleles": K + 1}
+
+    def shrink(self, case):
+        return []
 
 
 class Random(SingleBase):
@@ -586,7 +795,14 @@ class Random(SingleBase):
             anc = rng.choice([None, None, ["int", rng.randrange(nal)], ["str", rng.randrange(nal)]])
             if anc is not None and anc[1] >= 64:
                 anc[1] = 63
-            yield {"desc": d, "tree_index": k, "geno": g, "anc": anc, "nalleles": nal}
+            if rng.random() < 0.3:
+                for nd in d["nodes"]:
+                    nd[0] |= rng.choice([0, 0, 2, 1 << 16, 1 << 20])
+            c = {"desc": d, "tree_index": k, "geno": g, "anc": anc, "nalleles": nal}
+            nm = name_scheme(rng, nal)
+            if nm is not None:
+                c["names"] = nm
+            yield c
 
 
 class Exhaustive(Family):
@@ -605,11 +821,15 @@ class Exhaustive(Family):
                     flags = [(mask >> u) & 1 for u in range(n)]
                     if n >= 6 and sum(flags) > 5:
                         continue
-                    yield {"parent": parent, "flags": flags, "K": K}
+                    c = {"parent": parent, "flags": extra_flags(rng, flags, 0.15), "K": K}
+                    nm = name_scheme(rng, K)
+                    if nm is not None:
+                        c["names"] = nm
+                    yield c
 
     @staticmethod
     def combos(case):
-        k = sum(case["flags"])
+        k = sum(f & 1 for f in case["flags"])
         K = case["K"]
         for g in geno_vectors(k, K):
             for anc in anc_options(K, forms=("int",)) if k > 2 else anc_options(K):
@@ -617,7 +837,7 @@ class Exhaustive(Family):
 
     def observe(self, case):
         tree = build_tree(case)
-        alleles = allele_names(case["K"])
+        alleles = case_names(case, case["K"])
         out = []
         for g, anc in self.combos(case):
             r = run_mm(tree, g, alleles, anc_arg(anc, alleles))
@@ -635,7 +855,7 @@ class Exhaustive(Family):
             else:
                 if g is not memo_g:
                     memo_g, opt = g, sankoff(shape, g, K + 1)
-                fs = check_result(shape, g, None if anc is None else anc[1], {"anc": r[0], "muts": r[1]}, opt, K)
+                fs = check_result(shape, g, anc_index(anc, case_names(case, K)), {"anc": r[0], "muts": r[1]}, opt, K)
             for key, msg in fs:
                 if key not in seen:
                     seen.add(key)
@@ -646,7 +866,8 @@ class Exhaustive(Family):
         return any(not isinstance(r, str) and r[1] for r in obs)
 
     def describe(self, case, obs):
-        return {"nodes": len(case["parent"]), "samples": sum(case["flags"]), "evaluations": "x%d" % len(obs)}
+        return {"nodes": len(case["parent"]), "samples": sum(f & 1 for f in case["flags"]), "evaluations": "x%d" % len(obs),
+                "names": "al" if case.get("names") is None else "other"}
 
 
 class Malformed(Family):
@@ -695,21 +916,30 @@ class Malformed(Family):
             anc = rng.choice([None, None, ["int", rng.choice([-1, 0, 1, 2, 3, 63, 64, 65])],
                               ["str", rng.randrange(max(nal, 1))] if nal else ["strmissing", 0],
                               ["strmissing", 0]])
-            yield {"parent": parent, "flags": flags, "geno": g, "alleles": nal, "anc": anc}
+            c = {"parent": parent, "flags": extra_flags(rng, flags), "geno": g, "alleles": nal, "anc": anc}
+            r = rng.random()
+            if r < 0.35 and nal:
+                nm = name_scheme(rng, nal)
+                if nm is not None:
+                    c["names"] = nm
+                if anc is not None and anc[0] == "strmissing" and rng.random() < 0.7:
+                    # a digit string that is not an allele (must be a ValueError, never an index)
+                    cand = [x for x in range(0, nal + 3) if str(x) not in case_names(c, nal)]
+                    if cand:
+                        c["anc"] = ["numstr", rng.choice(cand)]
+            if rng.random() < 0.25:
+                lo, hi = (min(g), max(g)) if g else (0, 0)
+                ok = ["int64", "int32"] + (["int16"] if -2 ** 15 <= lo and hi < 2 ** 15 else []) + \
+                     (["int8"] if -128 <= lo and hi < 128 else []) + (["uint8", "uint32"] if lo >= 0 and hi < 256 else [])
+                c["dtype"] = rng.choice(ok)
+            elif rng.random() < 0.03:
+                c["dtype"] = "float64"
+            yield c
 
     def observe(self, case):
         tree = build_tree(case)
-        alleles = allele_names(case["alleles"])
-        anc = case["anc"]
-        if anc is None:
-            a = None
-        elif anc[0] == "int":
-            a = anc[1]
-        elif anc[0] == "str":
-            a = alleles[anc[1]]
-        else:
-            a = "not-an-allele"
-        o = {"res": run_mm(tree, case["geno"], alleles, a)}
+        alleles = case_names(case, case["alleles"])
+        o = {"res": run_mm(tree, case["geno"], alleles, anc_arg(case["anc"], alleles), case.get("dtype"))}
         o.update(tree_arrays(tree))
         return o
 
@@ -718,40 +948,38 @@ class Malformed(Family):
         # satisfy the property, and the documented preconditions must be rejected
         res = obs["res"]
         g, nal = case["geno"], case["alleles"]
-        k = sum(case["flags"])
+        k = sum(f & 1 for f in case["flags"])
         out = []
+        if case.get("dtype") in ("float64", "float32"):
+            # empty arrays of any type are let through to np.max; the bounds check comes before the cast
+            want = "ValueError" if not g else ("OverflowError" if any(x < -128 or x > 127 for x in g) else "TypeError")
+            return [] if res.get("exc") == want else [("float-genotypes-not-" + want.lower(), repr(res))]
         if "exc" in res:
             if res["exc"] not in ("ValueError", "LibraryError", "IndexError", "OverflowError"):
                 out.append(("unexpected-exception-class", res["exc"]))
             return out
         anc = case["anc"]
         valid = (len(g) == k and all(-1 <= x < min(nal, 64) for x in g) and any(x >= 0 for x in g)
-                 and (anc is None or (anc[0] in ("int", "str") and 0 <= anc[1] < min(nal, 64))))
+                 and (anc is None or (anc[0] in ("int", "str", "npint") and 0 <= anc[1] < min(nal, 64))))
         if not valid:
             out.append(("invalid-input-accepted", "geno=%r alleles=%d anc=%r -> %r" % (g, nal, anc, res)))
             return out
         shape = Shape(case["parent"], case["flags"])
         opt = sankoff(shape, g, nal + 1)
-        return check_result(shape, g, None if anc is None else anc[1], res, opt, nal)
+        return check_result(shape, g, anc_index(anc, case_names(case, nal)), res, opt, nal)
 
     def coq_check(self, case, obs):
-        anc = case["anc"]
-        if anc is None:
-            a = "ANone"
-        elif anc[0] == "int":
-            a = "(AInt %s)" % cz(anc[1])
-        elif anc[0] == "str":
-            a = "(AStr %s)" % cz(anc[1])
-        else:
-            a = "(AStr %s)" % cz(-5)       # a string that is not in the alleles list
-        return "check_case %s %s %s %s %s" % (coq_arrays(obs), clist(case["geno"]), a,
-                                                 cz(case["alleles"]), coq_result(obs["res"]))
+        if case.get("dtype") in ("float64", "float32"):
+            return None                 # TypeError path of safe_np_int_cast: oracle only
+        names = case_names(case, case["alleles"])
+        return "check_case %s %s %s %s %s" % (coq_arrays(obs), clist(case["geno"]), coq_anc(case["anc"], names),
+                                                 clist(tokens_of(names)), coq_result(obs["res"]))
 
     def describe(self, case, obs):
         return {"outcome": obs["res"].get("exc", "ok")}
 
 
-FAMILIES = [Single, Exhaustive, Random, RootThreshold, Malformed]
+FAMILIES = [Single, Exhaustive, Random, RootThreshold, Boundary, Malformed]
 NOT_COVERED = [
     "cost_matrix argument of tsk_tree_map_mutations (unused by the code)",
     "genotypes given as non-integer arrays (TypeError paths of safe_np_int_cast)",
